@@ -22,7 +22,7 @@ from bind import c15
 
 PROP = "C02"
 
-MAIN_GROUPS = ["core", "nest", "blocks", "methods", "decos", "attrs", "newattrs", "core2", "defnames", "targets", "comp", "calls", "decoys", "modules"]
+MAIN_GROUPS = ["core", "nest", "blocks", "methods", "decos", "attrs", "newattrs", "recall", "stars", "starmod", "core2", "defnames", "targets", "comp", "calls", "decoys", "modules"]
 FEATURE_GROUPS = ["params", "stmts", "walrus", "lambda"]
 
 _ROOT = None
@@ -207,8 +207,8 @@ def compare(prog, r, answers):
                 if off not in got:
                     t = by_off[off]
                     fail("missing", "self" if t is q else "other", q, t,
-                         "asked at %s: token %s of the same binding (scope %d) is not reported" % (
-                             ps.ev_key(q), ps.ev_key(t), -1 if b == "lib" else b))
+                         "asked at %s: token %s of the same binding (%s) is not reported" % (
+                             ps.ev_key(q), ps.ev_key(t), b))
             for off in got:
                 if off not in want:
                     t = by_off.get(off)
